@@ -24,7 +24,7 @@ GOAL_ATTRS = {"Lock_q_skew2_goals.cfg": {"n": 2, "budget": SKEW_BUDGET}, "Lock_q
 
 def families(ctx):
     g = lc.gen_cfg
-    return [
+    fams = [
         # name, N, cfg(n, maxtime, budget, faults, toggles, removal, remotes, histmax, maxatt, crashes, startby)
         ("race3", 3, g(3, 3, 1, "NoFaults", 0, "FALSE", "RemotesNone", 60, 2, "FALSE", 1)),
         ("mix3", 3, g(3, 16, 1, "ReadFaults", 2, "FALSE", "RemotesSome", 80, 3, "TRUE", 16)),
@@ -39,6 +39,9 @@ def families(ctx):
         ("skew2", 2, g(2, 14, 1, "WriteFaults", 2, "FALSE", "RemotesNone", 130, 2, "FALSE", 14, healodds=40,
                        maxskew=3, fixskew="TRUE", edge="TRUE", startfrom=9), {"budget": SKEW_BUDGET}),
     ]
+    if not ctx.thorough():
+        fams = [f for f in fams if f[0] != "lag2"]      # quick: lag3 + the targeted schedules
+    return fams
 
 
 def classify(r):
@@ -64,7 +67,7 @@ def classify(r):
 def run(ctx):
     per_family = ctx.pick(60, 1000)
     early = ["q_skew2_goals", "q_lag_goals"]          # their goal witnesses become schedules
-    late = ctx.pick(["q_acq", "q_hold"], ["acq3", "acq2", "hold2", "lag2", "lag3", "skew2", "skew2e"])
+    late = ctx.pick(["q_hold"], ["q_acq", "acq3", "acq2", "hold2", "lag2", "lag3", "skew2", "skew2e"])
     twins = {"acq2_norecheck": ["InvExclusion"], "lag2_sleepfirst": ["InvExclusion"], "skew2_f2ignore": ["InvExclusionMargin"]}
     if ctx.thorough():
         # the premise matters: clock ahead by the full margin AND a stall of 2.5 min defeat the protocol
@@ -80,7 +83,7 @@ def run(ctx):
         scheds = goals + fg.result()
         vec = lc.write_scheds(ctx, scheds)
         out = ctx.go_test("internal/repository", "^TestVerif_C12$", tags=lc.TAGS, env={"VERIF_VECTORS": vec}, timeout=3000)
-        n, bad, lines = ctx.check_records("LockRec12", os.path.join(out, "recs.ndjson"), shard=ctx.pick(350, 500))
+        n, bad, lines = ctx.check_records("LockRec12", os.path.join(out, "recs.ndjson"), shard=ctx.pick(700, 700))
         design += fl.result()
     for i in bad[:200]:
         r = json.loads(lines[i - 1])
@@ -97,7 +100,8 @@ def run(ctx):
            "counters": res.get("counters", {}), "samples": res.get("samples", [])[:3]}
     return verif.finish(ctx, "model_checking", cov, [
         "all lockers of one schedule share the virtual clock of the synctest bubble; the third party running `unlock` is the only skewed clock in replays (ahead by 0 or by the full margin of 7.5 min: the harness lists and loads the lock files with the real forAllLocks and applies the age test of lockHandle.stale() on the skewed clock); other skews are explored in the design model only",
-        "premise of the statement as enforced by the harness: the gates stall one process for at most 5 minutes in total, and for at most %d s in schedules with the skewed third party (with a clock ahead by 7.5 min AND a lock-file Save stalled for >= 2.5 min the protocol itself lets a robbed holder and a newcomer coexist for good: design run Lock_skew2e_budget1.cfg); removal of live lock files by `unlock --remove-all` is not part of C12 schedules" % SKEW_BUDGET,
+        "the premise of the statement is read JOINTLY: clock difference + total stall of a lock holder stay within the staleness margin of 7.5 min; enforced by the harness: the gates stall one process for at most 5 minutes in total in schedules without clock skew, and for at most %d s in schedules with the third party whose clock is ahead by 7.5 min; removal of live lock files by `unlock --remove-all` is not part of C12 schedules" % SKEW_BUDGET,
+        "boundary observation (documented, not judged): with the clock ahead by 7.5 min AND >= 2.5 min of total stall the regular refresh path (lockHandle.refresh creates the replacement without checking that the old lock file still exists) lets two exclusive lockers coexist for good on the unchanged tree: schedule and replay helper in /verif/findings/C12-boundary-skew-plus-stall/, model twin Lock_skew2e_budget1.cfg (refuted in the thorough tier)",
         "a holder whose lock file was removed by the skewed third party may coexist with a newcomer for at most 1 min (monitor poll, 200 ms waits, retry delays) + the time the harness stalled it (LockObs!ExclusionMargin); without such a removal no coexistence is accepted",
         "remote holders (other host) are scripted lock files: such a holder is taken to use the repository until its file is 22.5 min old",
         "in-memory backend with atomic operations; listing delay (families lag2/lag3 and targeted schedules): a new lock file is listed only 100 ms of virtual time after it was saved, removals are visible at once; one connection (lock files are loaded one at a time)",
